@@ -55,6 +55,7 @@ REQUIRED = ["Xmp.MixLinear." + n for n in (
 
 HARNESS = ("c14_mixlinear", ["c14_mixlinear.c"])
 NNA_WITNESSES = ["it_note_delay_nna.it"]      # F6 witness of DESIGN.md section 5, always in the silence set
+PAULA_WITNESSES = ["NP2.Multica"]             # Paula kernel read past the sample end at 4000 Hz (found by this check)
 
 
 def modules(ck, n, maxsize):
@@ -179,6 +180,35 @@ def run(ck):
                 ck.violation(sig + ":" + mod, replay_obj("tie", seed, nfr, path, line),
                              "the mix of a tick is not the sum of its voices' solo mixes: " + line[:300])
         model_compare(ck, "tie", out, stats)
+
+    # ---------------- regression configuration: lowest rate + Paula kernels ----------------
+    allfiles = vlib.corpus_files()
+    lmods = [f for f in allfiles if os.path.basename(f) in PAULA_WITNESSES]
+    amiga = [f for f in allfiles if f not in lmods and os.path.getsize(f) < 400000 and
+             re.search(r"\.mod$|/(NP|np|mod|MOD|P[0-9A-Za-z]+|pha|kris|unic|ksm|di|fc-m|ac1d|zen|tp[123]|xann|wn)[^/]*$", f)]
+    ck.rng.shuffle(amiga)
+    lmods += amiga[:12 if quick else 200]
+    for sh, (rc, out, err) in zip(*(lambda s: (s, vlib.pmap(run_shard, s)))(shards(exe, "lowrate", seed, 300 if quick else 600, lmods))):
+        if rc != 0:
+            abort_violation(ck, exe, sh, rc, err)
+            continue
+        for line in out.splitlines():
+            if line.startswith("tiestat "):
+                d = kv(line)
+                bump("lowrate_modules")
+                bump("lowrate_ticks", int(d["ticks"]))
+                bump("lowrate_paula_calls", int(d["paula_calls"]))
+                ck.count(("lowrate", line.split()[1], seed), nontrivial=int(d["paula_calls"]) > 0, n=int(d["ticks"]))
+                ck.cov["traces_validated_against_impl"] += int(d["ticks"]) - min(int(d["fails"]), int(d["ticks"]))
+            elif line.startswith("tie_fail "):
+                sig = line.split()[1]
+                mod = module_of(line)
+                path = next((m for m in sh[4] if os.path.basename(m) == mod), mod)
+                bump("tie_fail_" + sig)
+                if stats["tie_fail_" + sig] <= 3:
+                    ck.violation(sig + ":" + mod, replay_obj("lowrate", seed, sh[3], path, line),
+                                 "the mix of a tick is not the sum of its voices' solo mixes: " + line[:300])
+        model_compare(ck, "lowrate", out, stats)
 
     # ---------------- twin contexts: player volume / pan tails ----------------
     nfr = 60 if quick else 200
